@@ -280,7 +280,7 @@ def run_property(modname, tier, seed, workers=None, only_shards=None):
             new.append(fp)
         else:
             matched.setdefault(f["id"], (f, []))[1].append(fp)
-    rdir = os.path.join(VERIF, "replays", pid)
+    rdir = os.path.join(os.environ.get("UTMC_REPLAY_DIR") or os.path.join(VERIF, "replays"), pid)
     os.makedirs(rdir, exist_ok=True)
     lines = []
     for fid, (f, fps) in sorted(matched.items()):
@@ -332,8 +332,9 @@ def run_property(modname, tier, seed, workers=None, only_shards=None):
               assumptions=list(mod.ASSUMPTIONS), wall_s=round(wall, 3),
               violations=len(new))
     validate_evidence(ev)
-    os.makedirs(os.path.join(VERIF, "evidence"), exist_ok=True)
-    with open(os.path.join(VERIF, "evidence", pid + ".json"), "w") as fh:
+    evdir = os.environ.get("UTMC_EVIDENCE_DIR") or os.path.join(VERIF, "evidence")
+    os.makedirs(evdir, exist_ok=True)
+    with open(os.path.join(evdir, pid + ".json"), "w") as fh:
         json.dump(ev, fh, indent=1, default=repr)
     for ln in lines:
         print(ln)
